@@ -406,7 +406,11 @@ Section Step.
     else if h =? "MOVE" then selected_call v b "move_messages" (mailbox_arg a) []
     else if h =? "FETCH" then selected_call v b "fetch_messages" [] []
     else if h =? "SEARCH" then selected_call v b "search_mailbox" [] []
-    else if h =? "STORE" then selected_call v b "update_flags" [] []
+    else if h =? "STORE" then
+      match v_phase v with
+      | Selected _ _ true => raised v b NO WBackendNo     (* MailboxReadOnly, before any call *)
+      | _ => selected_call v b "update_flags" [] []
+      end
     else if h =? "IDLE" then
       if negb (cap_idle v) then raised v b NO WCannot
       else
